@@ -10,6 +10,7 @@ FACTORY = 'src/pharmpy/model/external/nonmem/records/factory.py'
 NMTRAN = 'src/pharmpy/model/external/nonmem/nmtran_parser.py'
 PARSERS = 'src/pharmpy/model/external/nonmem/records/parsers.py'
 IGNORED = 'src/pharmpy/internals/parse/ignored.py'
+SIZES = 'src/pharmpy/model/external/nonmem/records/sizes_record.py'
 
 
 class Refused(Exception):
@@ -168,6 +169,28 @@ EXPECT_SPLIT = "re.split('^([ \\\\t]*\\\\$)', text, flags=re.MULTILINE)"
 EXPECT_NAME = "re.match('(\\\\s*\\\\$[A-za-z]+)(.*)', line, flags=re.MULTILINE | re.DOTALL)"
 
 
+def sizes_thresholds(tree):
+    """(bound of `if value < B` in set_LTH, bound of `if value > D` that sets PC, bound of `if value > M` that raises)."""
+    cls = _find(tree, ast.ClassDef, 'SizesRecord')
+    fns = {n.name: n for n in cls.body if isinstance(n, ast.FunctionDef)}
+
+    def cmp_const(test, op):
+        if not (isinstance(test, ast.Compare) and ast.unparse(test.left) == 'value' and len(test.ops) == 1
+                and isinstance(test.ops[0], op) and isinstance(test.comparators[0], ast.Constant)
+                and isinstance(test.comparators[0].value, int)):
+            raise Refused('sizes_record: unexpected test ' + ast.unparse(test))
+        return test.comparators[0].value
+    lth = [n for n in fns['set_LTH'].body if isinstance(n, ast.If)]
+    if len(lth) != 1 or "remove_option('LTH')" not in ast.unparse(lth[0].body[0]) or "set_option('LTH', str(value))" not in ast.unparse(lth[0].orelse[0]):
+        raise Refused('set_LTH changed: ' + ast.unparse(fns['set_LTH'])[:200])
+    b = cmp_const(lth[0].test, ast.Lt)
+    pc = [n for n in fns['set_PC'].body if isinstance(n, ast.If)]
+    if len(pc) != 2 or not isinstance(pc[0].body[0], ast.Raise) or "set_option('PC', str(value))" not in ast.unparse(pc[1].body[0]) \
+            or "remove_option('PC')" not in ast.unparse(pc[1].orelse[0]):
+        raise Refused('set_PC changed: ' + ast.unparse(fns['set_PC'])[:200])
+    return b, cmp_const(pc[1].test, ast.Gt), cmp_const(pc[0].test, ast.Gt)
+
+
 def python_space_ranges():
     """Code points matched by \\s in a str pattern (= stripped by str.lstrip()), as ranges, from the running interpreter."""
     import re
@@ -188,7 +211,7 @@ def python_space_ranges():
 def generate(outfile):
     srcs = {}
     trees = {}
-    for rel in (FACTORY, NMTRAN, PARSERS, IGNORED):
+    for rel in (FACTORY, NMTRAN, PARSERS, IGNORED, SIZES):
         srcs[rel] = (REPO / rel).read_text()
         trees[rel] = ast.parse(srcs[rel])
     known = known_records(trees[FACTORY])
@@ -196,6 +219,7 @@ def generate(outfile):
     order = record_order(trees[NMTRAN])
     psteps = parser_steps(trees[PARSERS])
     consts = regex_constants(trees[NMTRAN], trees[FACTORY], trees[IGNORED])
+    thr = sizes_thresholds(trees[SIZES])
     if consts.get('split') != EXPECT_SPLIT:
         raise Refused('record-splitting regex changed: ' + str(consts.get('split')))
     if consts.get('name') != EXPECT_NAME:
@@ -217,6 +241,9 @@ def generate(outfile):
         f'Definition gen_ws : list N := {lst([str(c) + "%N" for c in consts["WS"]])}.\n'
         f'Definition gen_lf : list N := {lst([str(c) + "%N" for c in consts["LF"]])}.\n'
         f'Definition gen_space : list (N * N) := {lst([f"({a}%N, {b}%N)" for a, b in python_space_ranges()])}.\n'
+        f'Definition gen_sizes : sizes_thr := mkSizesThr {thr[0]}%nat {thr[1]}%nat {thr[2]}%nat.\n'
+        'Example gen_sizes_match : Nat.eqb (lth_bound gen_sizes) (lth_bound static_sizes) && Nat.eqb (pc_default gen_sizes) '
+        '(pc_default static_sizes) && Nat.eqb (pc_max gen_sizes) (pc_max static_sizes) = true.\nProof. vm_compute. reflexivity. Qed.\n'
         'Example gen_space_match : list_eqb (fun a b => N.eqb (fst a) (fst b) && N.eqb (snd a) (snd b)) gen_space space_ranges = true.\n'
         'Proof. vm_compute. reflexivity. Qed.\n'
         'Example gen_tables_match : tables_eqb gen_tables static_tables = true.\nProof. vm_compute. reflexivity. Qed.\n'
@@ -229,5 +256,5 @@ def generate(outfile):
     outfile.parent.mkdir(parents=True, exist_ok=True)
     outfile.write_text(text)
     sha = {rel: hashlib.sha256(s.encode()).hexdigest()[:16] for rel, s in srcs.items()}
-    return {'obligations': 6, 'sha': sha, 'known': len(known), 'synonyms': len(rules), 'order': len(order),
+    return {'obligations': 7, 'sha': sha, 'known': len(known), 'synonyms': len(rules), 'order': len(order),
             'parsers': len(psteps)}
